@@ -127,6 +127,7 @@ pub fn c01() -> PropDef {
                 &[&[1, 0, 2, 1], &[0, 2, 3]],
             )
         },
+        long: Some(({ let mut c = GenCfg::long_sched(); c.terms = vec![TermClass::Collect]; c }, 150, 1500)),
     }
 }
 
@@ -281,6 +282,7 @@ pub fn c03() -> PropDef {
                 &[&[1, 0, 2, 1], &[0, 0, 3]],
             )
         },
+        long: Some(({ let mut c = GenCfg::long_sched(); c.terms = vec![TermClass::ReduceFamily]; c }, 150, 1500)),
     }
 }
 
@@ -370,6 +372,7 @@ pub fn c04() -> PropDef {
         adjust: no_adjust,
         assumptions: COMMON_ASSUMPTIONS,
         tiny: || tiny_cases(&[Term::Count], &[&[StageKind::FilterMap], &[StageKind::Filter]], &[&[1, 0, 2, 1], &[0, 0, 3]]),
+        long: Some(({ let mut c = GenCfg::long_sched(); c.terms = vec![TermClass::Count, TermClass::ForEach]; c }, 100, 1000)),
     }
 }
 
@@ -480,6 +483,7 @@ pub fn c06() -> PropDef {
         adjust: no_adjust,
         assumptions: COMMON_ASSUMPTIONS,
         tiny: no_tiny,
+        long: None,
     }
 }
 
@@ -526,5 +530,6 @@ pub fn c07() -> PropDef {
         adjust: no_adjust,
         assumptions: COMMON_ASSUMPTIONS,
         tiny: no_tiny,
+        long: Some(({ let mut c = GenCfg::long_sched(); c.terms = vec![TermClass::CollectX]; c }, 100, 1000)),
     }
 }
